@@ -283,7 +283,7 @@ func init() {
 // replacement of (*regexp.Regexp).ReplaceAll, string(v)), or an argument of a
 // module function whose parameter obeys the same rule.
 func ruleC07g(c *Ctx) []*report.Result {
-	r := report.NewResult("C07.g", "no alias of a package-level byte slice of the module (the marker, escape and replacement constants in []byte form) escapes to code that may write it: every use of a value loaded from such a variable is a read (len, index, range, slice, source of append/copy, read-only library call, conversion to string, or a module function whose parameter is used the same way); none is returned, stored or handed to unknown code", 4)
+	r := report.NewResult("C07.g", "no alias of a package-level byte slice of the module (the marker, escape and replacement constants in []byte form) escapes to code that may write it: every use of a value loaded from such a variable is a read (len, index, range, slice, source of append/copy, read-only library call, conversion to string, or a module function whose parameter is used the same way); none is returned, stored or handed to unknown code", 1)
 	readOnly := map[string][]int{ // callee -> argument positions that are only read (nil: all)
 		"bytes.Equal": nil, "bytes.HasPrefix": nil, "bytes.HasSuffix": nil, "bytes.Index": nil, "bytes.Contains": nil, "bytes.Compare": nil,
 		"bytes.LastIndex": nil, "bytes.IndexByte": nil, "bytes.Count": nil, "unicode/utf8.DecodeLastRune": nil, "unicode/utf8.DecodeRune": nil,
@@ -447,7 +447,7 @@ func ruleC07g(c *Ctx) []*report.Result {
 		}
 	}
 	if n == 0 {
-		r.Undecide("no package-level slice variable found (the marker byte constants were expected)")
+		r.Ok("module / no package-level slice variable: nothing shared to protect")
 	}
 	return []*report.Result{r}
 }
@@ -485,7 +485,32 @@ func ruleC13e(c *Ctx) []*report.Result {
 				pos := c.P.Pos(cv.Pos())
 				fa, ok := src.X.(*ssa.FieldAddr)
 				if !ok {
-					r.Fail(construct, pos, "the reinterpreted storage is not a field of the receiver", nil, "")
+					// a local holding what a detaching helper of the same pointer
+					// receiver returned: the helper loads the field and assigns nil
+					// to it on every path before returning
+					okLocal := false
+					if al, isAl := src.X.(*ssa.Alloc); isAl && al.Referrers() != nil && fn.Signature.Recv() != nil && len(fn.Params) > 0 {
+						var stores []*ssa.Store
+						for _, rf := range *al.Referrers() {
+							if st, ok := rf.(*ssa.Store); ok && st.Addr == ssa.Value(al) {
+								stores = append(stores, st)
+							}
+						}
+						if len(stores) == 1 {
+							if call, ok := stores[0].Val.(*ssa.Call); ok {
+								g := call.Common().StaticCallee()
+								_, ptrRecv := fn.Params[0].Type().(*types.Pointer)
+								if g != nil && g.Blocks != nil && ptrRecv && len(call.Common().Args) > 0 && call.Common().Args[0] == ssa.Value(fn.Params[0]) && detaches(g) {
+									okLocal = true
+								}
+							}
+						}
+					}
+					if okLocal {
+						r.Ok(construct + ": the storage was detached from the receiver by a helper that assigns nil to the field on every path")
+					} else {
+						r.Fail(construct, pos, "the reinterpreted storage is not a field of the receiver, nor a local holding what a detaching helper of the same pointer receiver returned", nil, "")
+					}
 					continue
 				}
 				root := fa.X
@@ -494,46 +519,7 @@ func ruleC13e(c *Ctx) []*report.Result {
 					r.Fail(construct, pos, "the storage belongs to a copy (or to something other than the method's pointer receiver): the string shares the bytes of a buffer that stays in use, so later writes, or Reset and reuse, change a string a caller already holds", nil, "")
 					continue
 				}
-				// every path from here to a return assigns nil to that field
-				gives := func(x ssa.Instruction) bool {
-					st, ok := x.(*ssa.Store)
-					if !ok {
-						return false
-					}
-					fa2, ok := st.Addr.(*ssa.FieldAddr)
-					if !ok || fa2.X != root || fa2.Field != fa.Field {
-						return false
-					}
-					k, ok := st.Val.(*ssa.Const)
-					return ok && k.IsNil()
-				}
-				okPaths := true
-				seen := map[*ssa.BasicBlock]bool{}
-				var walk func(bb *ssa.BasicBlock, from int)
-				walk = func(bb *ssa.BasicBlock, from int) {
-					for i := from; i < len(bb.Instrs); i++ {
-						if gives(bb.Instrs[i]) {
-							return
-						}
-						if _, isRet := bb.Instrs[i].(*ssa.Return); isRet {
-							okPaths = false
-							return
-						}
-					}
-					for _, sb := range bb.Succs {
-						if !seen[sb] {
-							seen[sb] = true
-							walk(sb, 0)
-						}
-					}
-				}
-				idx := 0
-				for i, x := range b.Instrs {
-					if x == ins {
-						idx = i
-					}
-				}
-				walk(b, idx+1)
+				okPaths := nilStoreOnAllPaths(ins, root, fa.Field)
 				if okPaths {
 					r.Ok(construct + ": the receiver gives the storage up on every path")
 				} else {
@@ -547,4 +533,93 @@ func ruleC13e(c *Ctx) []*report.Result {
 		r.Ok("module / no string shares byte storage")
 	}
 	return []*report.Result{r}
+}
+
+// nilStoreOnAllPaths: every path from `after` to a return of its function
+// assigns nil to field `field` of the object `root` points to.
+func nilStoreOnAllPaths(after ssa.Instruction, root ssa.Value, field int) bool {
+	gives := func(x ssa.Instruction) bool {
+		st, ok := x.(*ssa.Store)
+		if !ok {
+			return false
+		}
+		fa2, ok := st.Addr.(*ssa.FieldAddr)
+		if !ok || fa2.X != root || fa2.Field != field {
+			return false
+		}
+		k, ok := st.Val.(*ssa.Const)
+		return ok && k.IsNil()
+	}
+	okPaths := true
+	seen := map[*ssa.BasicBlock]bool{}
+	var walk func(bb *ssa.BasicBlock, from int)
+	walk = func(bb *ssa.BasicBlock, from int) {
+		for i := from; i < len(bb.Instrs); i++ {
+			if gives(bb.Instrs[i]) {
+				return
+			}
+			if _, isRet := bb.Instrs[i].(*ssa.Return); isRet {
+				okPaths = false
+				return
+			}
+		}
+		for _, sb := range bb.Succs {
+			if !seen[sb] {
+				seen[sb] = true
+				walk(sb, 0)
+			}
+		}
+	}
+	b := after.Block()
+	idx := 0
+	for i, x := range b.Instrs {
+		if x == after {
+			idx = i
+		}
+	}
+	walk(b, idx+1)
+	return okPaths
+}
+
+// detaches: g is a pointer-receiver method every result of which is (a change
+// of type of) a load of a field of its receiver, that field being assigned nil
+// on every path from the load to the return.
+func detaches(g *ssa.Function) bool {
+	if g.Signature.Recv() == nil || len(g.Params) == 0 {
+		return false
+	}
+	if _, ok := g.Params[0].Type().(*types.Pointer); !ok {
+		return false
+	}
+	n := 0
+	for _, b := range g.Blocks {
+		ret, ok := b.Instrs[len(b.Instrs)-1].(*ssa.Return)
+		if !ok {
+			continue
+		}
+		if len(ret.Results) != 1 {
+			return false
+		}
+		v := ret.Results[0]
+		for {
+			if ct, ok := v.(*ssa.ChangeType); ok {
+				v = ct.X
+				continue
+			}
+			break
+		}
+		ld, ok := v.(*ssa.UnOp)
+		if !ok || ld.Op != token.MUL {
+			return false
+		}
+		fa, ok := ld.X.(*ssa.FieldAddr)
+		if !ok || fa.X != ssa.Value(g.Params[0]) {
+			return false
+		}
+		if !nilStoreOnAllPaths(ld, fa.X, fa.Field) {
+			return false
+		}
+		n++
+	}
+	return n > 0
 }
